@@ -281,6 +281,8 @@ class Engine:
         assert isinstance(rec, RecTy)
         if f not in rec.fields:
             raise Unsupported(f"field {rec.name}.{f}")
+        if getattr(self, "fields_read", None) is not None:
+            self.fields_read.add((rec, f))
         return V(z3.Select(self.heap_arr(st, rec, f), obj.t), rec.fields[f])
 
     def write_field(self, st: State, obj: V, f: str, val: V) -> None:
@@ -952,7 +954,7 @@ class Engine:
         if not conds:
             self.assume(st, self.seq_len(r) == self.seq_len(xs))
             self.assume(st, z3.ForAll([bv], z3.Implies(inb, self.seq_idx(r, bv).t == elt.t),
-                                      patterns=[self.seq_idx(r, bv).t]))
+                                      patterns=[self.seq_idx(r, bv).t, self.seq_idx(xs, bv).t]))
             r.comp_src = (xs, bv, elt)  # type: ignore[attr-defined]
             return r
         # filtered comprehension: r = map(f, filter(p, xs)) via an order-preserving index embedding
